@@ -10,6 +10,8 @@ import (
 	"strings"
 	"time"
 
+	"go/types"
+
 	"golang.org/x/tools/go/ssa"
 )
 
@@ -103,6 +105,8 @@ func contractPackages(repo, prop string) ([]string, error) {
 	return pats, err
 }
 
+var sweepSkipped []string
+
 type funcResult struct {
 	fs  *FuncSpec
 	fn  *ssa.Function
@@ -168,6 +172,62 @@ func runProperty(o checkOpts) ([]*funcResult, *Engine, []string, error) {
 		t0 := time.Now()
 		ctx := e.verifyFunc(fn, fs)
 		results = append(results, &funcResult{fs: fs, fn: fn, ctx: ctx, gen: time.Since(t0)})
+	}
+	// package sweeps: every function of the package without a contract of its own
+	for _, cf := range e.files {
+		if cf.PkgSweep == nil || !hasProp(cf.PkgSweep.Props, o.prop) {
+			continue
+		}
+		sp := e.spkg[cf.Pkg]
+		if sp == nil {
+			continue
+		}
+		var fns []*ssa.Function
+		seen := map[*ssa.Function]bool{}
+		add := func(fn *ssa.Function) {
+			if fn == nil || seen[fn] || fn.Synthetic != "" || len(fn.Blocks) == 0 || fn.Name() == "init" || strings.HasPrefix(fn.Name(), "init#") {
+				return
+			}
+			if e.specOf(fn) != nil {
+				return
+			}
+			if fn.Pkg != sp {
+				return
+			}
+			seen[fn] = true
+			fns = append(fns, fn)
+		}
+		for _, m := range sp.Members {
+			switch x := m.(type) {
+			case *ssa.Function:
+				add(x)
+			case *ssa.Type:
+				for _, T := range []types.Type{x.Type(), types.NewPointer(x.Type())} {
+					ms := e.prog.MethodSets.MethodSet(T)
+					for i := 0; i < ms.Len(); i++ {
+						add(e.prog.MethodValue(ms.At(i)))
+					}
+				}
+			}
+		}
+		sort.Slice(fns, func(i, j int) bool { return calleeName(fns[i]) < calleeName(fns[j]) })
+		for _, fn := range fns {
+			if o.only != "" && !strings.Contains(calleeName(fn), o.only) {
+				continue
+			}
+			fs := &FuncSpec{Name: strings.TrimPrefix(calleeName(fn), sp.Pkg.Name()+"."), Pkg: cf.Pkg, Props: cf.PkgSweep.Props, Sweep: cf.PkgSweep.Kinds, NoFrame: true, Cheap: true}
+			t0 := time.Now()
+			ctx := e.verifyFunc(fn, fs)
+			if len(ctx.anchorErrs) > 0 {
+				// not analysable by the generator: no claim, no alarm
+				sweepSkipped = append(sweepSkipped, ctx.fn+": "+trunc(ctx.anchorErrs[0], 120))
+				continue
+			}
+			for _, ob := range ctx.obligations {
+				ob.Cheap = true
+			}
+			results = append(results, &funcResult{fs: fs, fn: fn, ctx: ctx, gen: time.Since(t0)})
+		}
 	}
 	for _, lem := range e.lemmas {
 		if !hasProp(lem.Props, o.prop) {
